@@ -9,7 +9,9 @@ META = {
     "rule": "P(T): one partition per primitive type, v symbolic over every integer representable in the type's "
             "width, a second symbolic integer y for ordering; operator delegation decided with an opaque probe "
             "operand (no symbolic multiplication or shift reaches the solver) plus concrete right operands; "
-            "hash on the solver-enumerated interval end points +-2 and width limits only.",
+            "hash on the solver-enumerated interval end points +-2 and width limits only; a further partition per "
+            "type checks validity, byte form and text form right after the same symbolic number went through "
+            "another type of the same width in the same path.",
     "bounds": {"quick": "all primitive types, full width", "thorough": "same + two-operand arithmetic with a second symbolic typed value"},
     "outside": "integers outside the type's width; hash() for values other than the enumerated boundary points "
                "(hash concretises its argument); float results of true division beyond delegation",
@@ -94,6 +96,30 @@ def typed_int(cfg, v, y):
     return checks
 
 
+def after_other(cfg, v):
+    """validity, text form and byte form of T(v) right after the same number was constructed, validated and
+    rendered as another type of the same width (nothing may be remembered by number alone)"""
+    T, U = get_type(cfg["type"]), get_type(cfg["other"])
+    d = pinned_layout()["types"][cfg["type"]]
+    try:
+        u = U(v)
+        u.is_valid()
+        format(u)
+        u.to_bytes()
+    except Exception:  # noqa: BLE001  (how the other type renders the number is that type's partition)
+        note("other-raised")
+    x = T(v)
+    valid = in_valid(d["valid"], v)
+    checks = [("int-eq-after-another-type", all([int(x) == v, x == v])),
+              ("validity-after-another-type", x.is_valid() == valid)]
+    tb = x.to_bytes()
+    exp = expected_bytes(v, d["width"], d["signed"])
+    checks.append(("to-bytes-after-another-type", len(tb) == d["width"] and all([tb[i] == exp[i] for i in range(min(len(tb), d["width"]))])))
+    if not d.get("rc") and not d.get("bits"):
+        checks.append(("text-form-after-another-type", text_form_ok(T, d, x, v, valid)))
+    return checks
+
+
 def text_form_ok(T, d, x, v, valid):
     """format(x): the declared member name; for named ranges <enum>.<base><sep><hex offset zero padded>;
     plain integers (range members / unnamed points) print as the integer."""
@@ -144,8 +170,17 @@ def partitions(tier, seed):
     parts = []
     LT = sp.L()["types"]
     PT = pinned_layout()["types"]
-    for k in sp.prim_keys():
+    keys = list(sp.prim_keys())
+    for k in keys:
         d = LT[k]
+        same = [j for j in keys if (LT[j]["width"], LT[j]["signed"]) == (d["width"], d["signed"]) and not LT[j].get("rc") and not LT[j].get("bits")]  # rc / attribute words: C18 / C17 have their own history partitions
+        if k in same and len(same) > 1:
+            w_ = d["width"]
+            lo_ = -(2 ** (8 * w_ - 1)) if d["signed"] else 0
+            hi_ = 2 ** (8 * w_ - 1) if d["signed"] else 2 ** (8 * w_)
+            parts.append({"id": "C16/after-another-type/%s" % sp.short(k), "prop": "harness.c16:after_other",
+                          "cfg": {"type": k, "other": same[(same.index(k) + 1) % len(same)]},
+                          "sym": [["v", "int", lo_, hi_]], "budget_s": 100})
         w = d["width"]
         lo = -(2 ** (8 * w - 1)) if d["signed"] else 0
         hi = 2 ** (8 * w - 1) if d["signed"] else 2 ** (8 * w)
